@@ -270,3 +270,160 @@ Section Drain.
     exists k. split; assumption.
   Qed.
 End Drain.
+
+(* ---------- the same for the ClusterCIDR informer ---------- *)
+Fixpoint replay_c (cache : list ccobj) (feed : list cevent) : list ccobj :=
+  match feed with
+  | [] => cache
+  | CAdd o :: r | CUpd o :: r => replay_c (put_cc o cache) r
+  | CDel o :: r => replay_c (del_cc (o_name o) cache) r
+  end.
+Lemma replay_c_app c f g : replay_c c (f ++ g) = replay_c (replay_c c f) g.
+Proof. revert c. induction f as [|e f IH]; intros c; [reflexivity|]. destruct e; cbn; apply IH. Qed.
+
+Record CohC (w : world) : Prop := {
+  cc_sync : w_synced w = true -> replay_c (w_ccache w) (w_cfeed w) = w_ccs w;
+  cc_uns : w_synced w = false -> w_cfeed w = []
+}.
+Lemma cohc_init : CohC init_world.
+Proof. constructor; cbn; [discriminate|reflexivity]. Qed.
+Lemma cohc_same w w' : CohC w -> w_ccs w' = w_ccs w -> w_cfeed w' = w_cfeed w -> w_ccache w' = w_ccache w -> w_synced w' = w_synced w -> CohC w'.
+Proof. intros [a b] E1 E2 E3 E4. constructor; rewrite ?E1, ?E2, ?E3, ?E4; assumption. Qed.
+Lemma cohc_crashed w : CohC (crashed w).
+Proof. constructor; cbn; [discriminate|reflexivity]. Qed.
+
+Lemma cohc_push w ccs' rv e :
+  CohC w -> replay_c (w_ccs w) [e] = ccs' ->
+  CohC (set_api w (w_nodes w) ccs' rv (w_nfeed w) (push_cev w e)).
+Proof.
+  intros [a b] He. constructor; cbn [set_api w_ccs w_cfeed w_ccache w_synced].
+  - intros Hs. unfold push_cev. rewrite Hs. rewrite replay_c_app, (a Hs). exact He.
+  - intros Hs. unfold push_cev. rewrite Hs. exact (b Hs).
+Qed.
+Lemma cohc_nodes_only w nodes' rv nf : CohC w -> CohC (set_api w nodes' (w_ccs w) rv nf (w_cfeed w)).
+Proof. intros C. apply (cohc_same w); try reflexivity; exact C. Qed.
+
+Lemma find_cc_name name l o : find_cc name l = Some o -> o_name o = name.
+Proof. induction l as [|h t IH]; cbn; [discriminate|]. destruct (str_eqb (o_name h) name) eqn:E; [intros H; inversion H; subst; apply str_eqb_eq; exact E|exact IH]. Qed.
+
+Lemma apply_patch_cohc w nm cs o : CohC w -> CohC (apply_patch w nm cs o).
+Proof.
+  intros C. unfold apply_patch. destruct o; try exact C;
+    (destruct (find_anode nm (w_nodes w)) as [a|]; [|exact C]; destruct (an_cidrs a); [|exact C]); apply cohc_nodes_only; exact C.
+Qed.
+Lemma apply_update_cc_cohc w o out : CohC w -> CohC (apply_update_cc w o out).
+Proof.
+  intros C. unfold apply_update_cc. destruct out; try exact C;
+    (destruct (find_cc (o_name o) (w_ccs w)) as [cur|] eqn:Ec; [|exact C]; destruct (negb (o_rv cur =? o_rv o)); [exact C|]);
+    (match goal with |- context [if ?b then _ else _] => destruct b end; apply cohc_push; [exact C|cbn; try reflexivity| exact C|cbn; reflexivity]).
+Qed.
+
+Lemma apply_effects_cohc fx : forall w, CohC w -> CohC (apply_effects w fx).
+Proof.
+  induction fx as [|e fx IH]; intros w C; [exact C|]. destruct e as [nd cs po|? ?|? ?|o' out|? ?]; cbn [apply_effects]; try (apply IH; exact C).
+  - apply IH. apply apply_patch_cohc. exact C.
+  - apply IH. apply apply_update_cc_cohc. exact C.
+Qed.
+Lemma after_call_cohc {A} w (r : res A) m' : CohC w -> CohC (after_call w r m').
+Proof. intros C. unfold after_call. destruct r; try apply cohc_crashed; apply (cohc_same w); try reflexivity; exact C. Qed.
+
+Section CohCStep.
+  Variable po : parse_oracle.
+  Variable lab : label_oracle.
+
+  Lemma run_node_sync_cohc w cached key outs : CohC w -> CohC (fst (run_node_sync po lab w cached key outs)).
+  Proof.
+    intros C. unfold run_node_sync. destruct (w_ctl w) as [m|]; [|exact C].
+    destruct (sync_node po lab (svc_list (w_svc w)) (can_patch w key) (api_same w key) (held_cidrs (w_ncache w)) m cached (find_node key (w_ncache w)) outs) as [[m' r] fx].
+    cbn [fst]. apply apply_effects_cohc. apply after_call_cohc. exact C.
+  Qed.
+  Lemma run_cc_sync_cohc w key cached out : CohC w -> CohC (fst (run_cc_sync w key cached out)).
+  Proof.
+    intros C. unfold run_cc_sync. destruct (w_ctl w) as [m|]; [|exact C].
+    match goal with |- context [sync_cc m key cached ?o] => destruct (sync_cc m key cached o) as [[m' r] fx] end.
+    cbn [fst]. apply apply_effects_cohc. pose proof (after_call_cohc w r m' C) as A.
+    destruct cached as [o|]; [|exact A]. match goal with |- context [if ?b then _ else _] => destruct b end; [|exact A].
+    apply (cohc_same (after_call w r m')); try reflexivity; exact A.
+  Qed.
+  Lemma handle_nevent_cohc w e : CohC w -> CohC (fst (handle_nevent w e)).
+  Proof.
+    intros C. unfold handle_nevent. destruct e as [n|n|n]; cbn [set_caches w_ctl w_svc].
+    - destruct (w_ctl w); cbn [fst]; apply (cohc_same w); try reflexivity; exact C.
+    - destruct (w_ctl w); cbn [fst]; apply (cohc_same w); try reflexivity; exact C.
+    - destruct (w_ctl w) as [m|]; [|cbn [fst]; apply (cohc_same w); try reflexivity; exact C].
+      destruct (release_cidr (svc_list (w_svc w)) m n) as [m' r]. destruct r; cbn [fst]; try apply cohc_crashed; apply (cohc_same w); try reflexivity; exact C.
+  Qed.
+  Lemma deliver_all_n_cohc es : forall w acc, CohC w -> CohC (fst (deliver_all_n w es acc)).
+  Proof.
+    induction es as [|e es IH]; intros w acc C; cbn [deliver_all_n]; [exact C|].
+    pose proof (handle_nevent_cohc w e C) as C1. destruct (handle_nevent w e) as [w1 ob]. cbn [fst] in *.
+    destruct (ob_res ob =? 3); [exact C1|apply IH; exact C1].
+  Qed.
+
+  Definition cohc_op (o : op) : Prop := match o with RelistCCs => False | _ => True end.
+
+  Theorem step_cohc w o : CohC w -> cohc_op o -> CohC (fst (step po lab w o)).
+  Proof.
+    intros C Ho. destruct o; cbn [step cohc_op] in *; try contradiction.
+    - destruct (find_anode name (w_nodes w)); [exact C|]. apply cohc_nodes_only. exact C.
+    - destruct (find_anode name (w_nodes w)); [|exact C]. apply cohc_nodes_only. exact C.
+    - destruct (find_anode name (w_nodes w)); [|exact C]. apply cohc_nodes_only. exact C.
+    - destruct (find_anode name (w_nodes w)); [|exact C]. apply cohc_nodes_only. exact C.
+    - (* UCreateCC *)
+      destruct (find_cc (o_name o) (w_ccs w)) eqn:Ec; [exact C|]. cbn [fst]. apply cohc_push; [exact C|].
+      cbn. unfold put_cc. cbn [with_rv o_name]. rewrite Ec. reflexivity.
+    - (* UDeleteCC *)
+      destruct (find_cc name (w_ccs w)) as [c|] eqn:Ec; [|exact C]. pose proof (find_cc_name _ _ _ Ec) as Hn.
+      destruct (o_fins c); [cbn [fst]; apply cohc_push; [exact C|cbn; rewrite Hn; reflexivity]|].
+      destruct (o_deleting c); [exact C|]. cbn [fst]. apply cohc_push; [exact C|reflexivity].
+    - (* USetCCFinalizers *)
+      destruct (find_cc name (w_ccs w)) as [c|] eqn:Ec; [|exact C]. pose proof (find_cc_name _ _ _ Ec) as Hn.
+      match goal with |- context [if ?b then _ else _] => destruct b end; cbn [fst]; apply cohc_push; try exact C; cbn; rewrite ?Hn; reflexivity.
+    - (* DeliverNode *)
+      destruct (w_nfeed w) as [|e rest]; [exact C|]. apply handle_nevent_cohc. apply (cohc_same w); try reflexivity; exact C.
+    - destruct (w_nfeed w) as [|[n|n|n] rest]; try exact C. apply handle_nevent_cohc. apply (cohc_same w); try reflexivity; exact C.
+    - (* DeliverCC *)
+      destruct (w_cfeed w) as [|e rest] eqn:Ef; [exact C|].
+      assert (Hsy : w_synced w = true).
+      { destruct (w_synced w) eqn:E; [reflexivity|]. pose proof (cc_uns w C E) as B. rewrite Ef in B. discriminate B. }
+      pose proof (cc_sync w C Hsy) as Hr. rewrite Ef in Hr.
+      assert (G : forall W, w_ccs W = w_ccs w -> w_cfeed W = rest -> w_ccache W = replay_c (w_ccache w) [e] -> w_synced W = true -> CohC W).
+      { intros W E1 E2 E3 E4. constructor; rewrite ?E1, ?E2, ?E3, ?E4; [intros _; destruct e; exact Hr|discriminate]. }
+      unfold handle_cevent. destruct e; cbn [set_caches w_ctl w_ncache w_ccache w_nfeed w_cfeed]; destruct (w_ctl w); cbn [fst]; apply G; reflexivity || exact Hsy.
+    - destruct (w_ctl w); [|exact C]. apply (cohc_same w); try reflexivity; exact C.
+    - destruct (w_ctl w); [|exact C]. apply (cohc_same w); try reflexivity; exact C.
+    - (* RelistNodes *)
+      destruct (w_synced w); [|exact C]. apply deliver_all_n_cohc. apply (cohc_same w); try reflexivity; exact C.
+    - apply (cohc_same w); try reflexivity; exact C.
+    - destruct (find (fun x => fst x =? w0) (w_nfetch w)) as [[wk [key cached]]|]; [|exact C].
+      apply run_node_sync_cohc. apply (cohc_same w); try reflexivity; exact C.
+    - apply (cohc_same w); try reflexivity; exact C.
+    - destruct (find (fun x => fst x =? w0) (w_cfetch w)) as [[wk [key cached]]|]; [|exact C].
+      apply run_cc_sync_cohc. apply (cohc_same w); try reflexivity; exact C.
+    - destruct (w_ctl w) as [m|] eqn:Em; [|exact C]. destruct (q_ready (w_nq w)) as [|key rest]; [exact C|].
+      match goal with |- context [run_node_sync po lab ?w1 ?c ?k ?o] =>
+        assert (C2 : CohC (fst (run_node_sync po lab w1 c k o)));
+          [|destruct (run_node_sync po lab w1 c k o) as [w2 ob2]] end.
+      { apply run_node_sync_cohc. apply (cohc_same w); try reflexivity; exact C. }
+      cbn [fst] in C2. destruct (ob_res ob2 =? 2); cbn [fst]; [apply (cohc_same w2); try reflexivity; exact C2|exact C2].
+    - destruct (w_ctl w) as [m|] eqn:Em; [|exact C]. destruct (q_ready (w_cq w)) as [|key rest]; [exact C|].
+      match goal with |- context [run_cc_sync ?w1 ?k ?c ?o] =>
+        assert (C2 : CohC (fst (run_cc_sync w1 k c o)));
+          [|destruct (run_cc_sync w1 k c o) as [w2 ob2]] end.
+      { apply run_cc_sync_cohc. apply (cohc_same w); try reflexivity; exact C. }
+      cbn [fst] in C2. destruct (ob_res ob2 =? 2); cbn [fst]; [apply (cohc_same w2); try reflexivity; exact C2|exact C2].
+    - apply (cohc_same w); try reflexivity; exact C.
+    - apply cohc_crashed.
+    - destruct (w_ctl w); [exact C|].
+      destruct (construct po lab (w_ccs w) outs svc1 svc2 (map node_view (w_nodes w))) as [[m fx] pan]. cbn [fst].
+      apply apply_effects_cohc. constructor; cbn; [discriminate|reflexivity].
+    - destruct (w_ctl w); [|exact C]. destruct (w_synced w); [exact C|]. cbn [fst].
+      constructor; cbn; [intros _; reflexivity|discriminate].
+  Qed.
+
+  Theorem run_cohc ops : forall w, CohC w -> Forall cohc_op ops -> CohC (run po lab w ops).
+  Proof.
+    induction ops as [|o ops IH]; intros w C H; [exact C|]. inversion H; subst. unfold run. cbn [fold_left].
+    apply IH; [apply step_cohc; assumption|assumption].
+  Qed.
+End CohCStep.
